@@ -481,23 +481,28 @@ def rule_abort_siblings(ctx):
 def rule_limits(ctx):
     ctx.rule("C13.4-send-and-receive-limits")
     an = get_analysis(ctx)
-    for q, lim in ((f"{TW}.WampRawSocketProtocol.send", "self._max_len_send"), (f"{AIO}.WampRawSocketMixinGeneral.send", "self.max_length_send")):
+    # decided cell-wise (sa.core.tiny): over (announced maximum, serialized length).  A message goes out iff it is within the announced
+    # maximum AND within what the 24-bit length prefix can express; otherwise PayloadExceededError and nothing is written
+    for q, lim in SEND_LIMITS:
         fn = ctx.program.func(q)
         ctx.analysed(fn)
-        g, mf, res = an.get(fn)
-        w = [(n, c) for n in g.stmt_nodes() for c in node_calls(n) if self_call(c, "sendString")]
-        ctx.require(len(w) == 1, f"{q}: sendString not found")
-        f = mf.at(w[0][0])
-        ok = any(x[0] == "lt" and x[1] == ("e", lim) and not x[3] for x in f) or any(x[0] == "any" and lim in norm.mentions(x) for x in f)
-        ctx.ob(f"{q.split('.')[-3]}.{q.split('.')[-2]}.send: nothing is written when the message exceeds the peer's maximum", ok, "length not compared with the announced maximum before writing", fn.loc(w[0][1]))
-    # ... decided cell-wise as well (sa.core.tiny): over (announced maximum, serialized length).  A message goes out iff it is within the announced
-    # maximum AND within what the 24-bit length prefix can express; otherwise PayloadExceededError and nothing is written
+        probs, n_cells, _kinds = send_limit_cells(ctx, q, lim, "C13.4-send-and-receive-limits")
+        ctx.ob(f"{q.split('.')[-3]}.{q.split('.')[-2]}.send: written iff within the announced maximum and within the 24-bit length prefix, else PayloadExceededError [{n_cells} cells]",
+               not probs, "; ".join(probs[:2]), fn.loc())
+    _rule_limits_receive(ctx, an)
+
+
+SEND_LIMITS = ((f"{TW}.WampRawSocketProtocol.send", "self._max_len_send"), (f"{AIO}.WampRawSocketMixinGeneral.send", "self.max_length_send"))
+
+
+def send_limit_cells(ctx, q, lim, rule_id):
+    """RawSocket send() evaluated (sa.core.tiny, the framing function followed in place) over (maximum announced by the peer, serialized length):
+    -> (problems, number of cells, exception kinds that left send() on some cell)"""
     from ..core.tiny import Tiny, Sym, Buf
-    from .common import inline_private
-    for q, lim in ((f"{TW}.WampRawSocketProtocol.send", "self._max_len_send"), (f"{AIO}.WampRawSocketMixinGeneral.send", "self.max_length_send")):
+    if True:
         fn = ctx.program.func(q)
         body = [x for x in fn.node.body if not (isinstance(x, ast.Expr) and isinstance(x.value, ast.Constant))]
-        probs, n_cells = [], 0
+        probs, n_cells, kinds = [], 0, set()
         try:
             for L in (512, 2 ** 24):
                 for n_ in sorted({L - 1, L, L + 1, 2 ** 24 - 1, 2 ** 24, 2 ** 24 + 1}):
@@ -537,15 +542,20 @@ def rule_limits(ctx):
                     fits = n_ <= L and n_ <= 2 ** 24 - 1
                     tag = f"peer announced {L}, message of {n_} octets"
                     refused = r[0] == "raise" and "PayloadExceededError" in str(r[1])
+                    if r[0] == "raise":
+                        kinds.add(str(r[1]).split("(")[0].strip().split(".")[-1])
                     if fits and not (r[0] != "raise" and len(wrote) == 1 and wrote[0] is payload):
                         probs.append(f"{tag}: {r[0]} {str(r[1])[:40]}, {len(wrote)} write(s); expected the message to be written once")
                     if not fits and (not refused or wrote):
                         probs.append(f"{tag}: {'written' if wrote else r[0]} -- expected PayloadExceededError and nothing written"
                                      + (" (2**24 does not fit the 24-bit length prefix: it goes out as an empty frame of type 1 followed by 16 MiB of stray octets)" if n_ == 2 ** 24 and wrote else ""))
         except AnalysisError as e:
-            raise AnalysisError(f"[C13.4-send-and-receive-limits] {q} outside the modelled subset: {e}")
-        ctx.ob(f"{q.split('.')[-3]}.{q.split('.')[-2]}.send: written iff within the announced maximum and within the 24-bit length prefix, else PayloadExceededError [{n_cells} cells]",
-               not probs, "; ".join(probs[:2]), fn.loc())
+            raise AnalysisError(f"[{rule_id}] {q} outside the modelled subset: {e}")
+        return probs, n_cells, kinds
+
+
+def _rule_limits_receive(ctx, an):
+    from ..core.tiny import Tiny, Sym, Buf
     pp = ctx.program.func(f"{AIO}.PrefixProtocol.data_received")
     ctx.analysed(pp)
     g, mf, res = an.get(pp)
@@ -619,8 +629,10 @@ def rule_limits(ctx):
 def rule_subprotocol(ctx):
     ctx.rule("C13.7-subprotocol-selection")
     an = get_analysis(ctx)
+    from .common import expand_expr_helpers
     fn = ctx.program.func("autobahn.wamp.websocket.WampWebSocketServerProtocol.onConnect")
     ctx.analysed(fn)
+    fn = expand_expr_helpers(ctx, fn)   # `self._helper(x)` returning one expression is read as that expression
     g, mf, res = an.get(fn)
     loops = [n for n in g.stmt_nodes() if n.kind == "for"]
     ok = len(loops) == 1 and norm.text(loops[0].ast.iter) == "request.protocols"
@@ -637,6 +649,7 @@ def rule_subprotocol(ctx):
     ctx.ob("server: strict negotiation is the default", ctx.program.class_const(fn.cls, "STRICT_PROTOCOL_NEGOTIATION") is True, "default changed", fn.loc())
     cf = ctx.program.func("autobahn.wamp.websocket.WampWebSocketClientProtocol.onConnect")
     ctx.analysed(cf)
+    cf = expand_expr_helpers(ctx, cf)
     g2, mf2, res2 = an.get(cf)
     rj = [n for n in g2.stmt_nodes() if n.kind == "stmt" and isinstance(n.ast, ast.Raise)]
     ok = len(rj) == 1 and ("in", "response.protocol", ("e", "self.factory.protocols"), False) in mf2.at(rj[0])
@@ -757,8 +770,12 @@ def rule_remainder(ctx):
             t = o.term
             if o.kind == "return" and ((t[0] == "call" and t[1][0] == "g" and t[1][1].endswith("." + meth)) or (t[0] == "m" and t[2] == meth)):
                 fwd.append((o.conds, t, o.node))
-        ctx.require(len(fwd) == 2, f"{q}: expected the established-path and the handshake-path hand-off, found {len(fwd)}")
         name = q.split(".")[-2]
+        if q.startswith(AIO):
+            _aio_remainder_cells(ctx, fn, name)
+            if len(fwd) != 2:
+                continue   # the hand-off is not in the two-site form the term comparison reads: the cells above decide
+        ctx.require(len(fwd) == 2, f"{q}: expected the established-path and the handshake-path hand-off, found {len(fwd)}")
         for conds, t, st in fwd:
             arg = (t[2] if t[0] == "call" else t[3])[-1]
             established = any(pl for c, pl in conds if c[0] == "attr" and c[2] in ("_handshake_done", "_handshake_complete"))
@@ -773,6 +790,64 @@ def rule_remainder(ctx):
             ctx.ob(f"{name}: octets behind the 4 handshake octets are taken from the accumulated stream (nothing lost or repeated under any read split)", ok,
                    f"forwards {show(arg)[:120]}: with a handshake split across reads the wrong slice reaches the frame parser (messages pipelined behind the "
                    f"handshake are lost or misframed)", fn.loc(st))
+
+
+def _aio_remainder_cells(ctx, fn, name):
+    """asyncio RawSocketProtocol.data_received before the handshake is complete, evaluated (sa.core.tiny) over (octets buffered so far) x (length of
+    this read): the handshake is judged exactly when the fourth octet is there; what lies behind it must reach the frame parser NOW (a peer that
+    pipelines its first message behind the handshake sends nothing more until it is answered), exactly once and in order."""
+    from ..core.tiny import Tiny, Sym, Buf
+    body = [x for x in fn.node.body if not (isinstance(x, ast.Expr) and isinstance(x.value, ast.Constant))]
+    probs, n = [], 0
+    try:
+        for k in range(4):
+            for d in range(7):
+                judged, attached, parsed = [], [], []
+
+                def default(f_, a_, k_=None):
+                    if f_ == "self.process_handshake":
+                        judged.append(1)
+                        return None
+                    if f_ == "self._on_handshake_complete":
+                        attached.append(1)
+                        return None
+                    if f_.endswith(".data_received"):
+                        # the frame parser works on (its buffer + the chunk it is given)
+                        chunk = a_[-1] if a_ else None
+                        parsed.append((t.env.get("self._buffer"), chunk))
+                        return None
+                    return Sym(f"<{f_}>")
+                t = Tiny({"self": Sym("protocol"), "self._handshake_done": False, "self._buffer": Buf(0, k), fn.params()[1]: Buf(k, k + d), "self.log": Sym("log")},
+                         default_call=default, opaque_globals=True, model_strings=True)
+                r = t.run(body)
+                n += 1
+                cell = f"{k} handshake octet(s) buffered, read of {d} octet(s)"
+                have = k + d
+                if r[0] == "raise":
+                    probs.append(f"{cell}: raises {r[1]}")
+                    continue
+                if (len(judged) == 1) != (have >= 4) or len(judged) > 1 or len(attached) != len(judged):
+                    probs.append(f"{cell}: handshake judged {len(judged)} time(s), session attached {len(attached)} time(s)")
+                    continue
+                if have > 4:
+                    seen = []
+                    for b_, c_ in parsed:
+                        for x_ in (b_, c_):
+                            if isinstance(x_, Buf) and len(x_):
+                                seen.append((x_.lo, x_.hi))
+                    # contiguous cover of stream[4:have], each octet once
+                    seen.sort()
+                    ok = bool(parsed) and seen and seen[0][0] == 4 and seen[-1][1] == have and all(seen[i][1] == seen[i + 1][0] for i in range(len(seen) - 1))
+                    if not ok:
+                        probs.append(f"{cell}: the {have - 4} octet(s) behind the handshake "
+                                     + ("are left in the buffer and the frame parser is not entered (they wait for the next read, which a peer awaiting a reply never sends)"
+                                        if not parsed else f"reach the frame parser as {seen}, expected stream[4:{have}] once"))
+                elif any(isinstance(x_, Buf) and len(x_) for b_, c_ in parsed for x_ in (b_, c_)):
+                    probs.append(f"{cell}: the frame parser is given octets although nothing lies behind the handshake")
+    except AnalysisError as e:
+        raise AnalysisError(f"[C13.8-octets-behind-the-handshake] {name}.data_received outside the modelled subset: {e}")
+    ctx.ob(f"{name}: octets behind the 4 handshake octets reach the frame parser at once, exactly once and in order, for every split of the stream [{n} cells]",
+           not probs, "; ".join(probs[:2]), fn.loc())
 
 
 def _subterms13(t):
